@@ -378,6 +378,8 @@ def write_replay(pid, seed, idx, case, verdict, why, extra=None):
 def corpus_inputs(pid):
     ins = []
     for f in sorted(glob.glob(os.path.join(VERIF, 'corpus', pid, '*.json'))):
+        if os.environ.get('VERIF_NO_SEEDED_CORPUS') and os.path.basename(f).startswith('seeded-'):
+            continue    # tools/seedsweep.sh measures what the generators alone find
         doc = json.load(open(f))
         if isinstance(doc, dict) and 'input' in doc:
             ins.append(doc['input'])
